@@ -202,3 +202,23 @@ pub fn clip(s: &str, max: usize) -> Cow<'_, str> {
         Cow::Owned(format!("{}…(+{} bytes)", &s[..end], s.len() - end))
     }
 }
+
+/// Shorter variants of a string for the minimiser: chunks removed (halves, quarters, ... single
+/// characters), most aggressive first, capped.
+pub fn string_shrinks(s: &str) -> Vec<String> {
+    let chars: Vec<char> = s.chars().collect();
+    let n = chars.len();
+    let mut out = Vec::new();
+    let mut size = n / 2;
+    while size >= 1 && out.len() < 240 {
+        let mut start = 0;
+        while start < n && out.len() < 240 {
+            let end = (start + size).min(n);
+            let candidate: String = chars[..start].iter().chain(chars[end..].iter()).collect();
+            out.push(candidate);
+            start += size;
+        }
+        size /= 2;
+    }
+    out
+}
